@@ -87,7 +87,7 @@ func operand(v V, receiver bool) (V, Status) {
 			}
 			return n, Unsp // numeric string as argument: not stated
 		}
-		if strings.TrimSpace(v.S) != v.S || strings.ContainsAny(v.S, "eE+_xX") {
+		if strings.TrimSpace(v.S) != v.S || strings.ContainsAny(v.S, "eE+_") {
 			return v, Unsp // " 7", "1e3": whether these "spell a number" is not stated
 		}
 		return v, Err
